@@ -21,9 +21,10 @@ def confs(tier, seed, loops_k=None, directed_k=None, undirected_k=None, flavours
     else:
         for fl in flavours:
             out.append(graphs.gconf('DynGraph', fl, 3, 4, 12))
-            out.append(graphs.gconf('DynGraph', fl, 4, 4, undirected_k or 5))
             out.append(graphs.gconf('DynDiGraph', fl, 3, 4, directed_k or 5))
-            out.append(graphs.gconf('DynDiGraph', fl, 4, 3, 4))
+            if fl == flavours[0]:          # the 4-node universes once (flavour 0): they dominate the cost
+                out.append(graphs.gconf('DynGraph', fl, 4, 4, undirected_k or 5))
+                out.append(graphs.gconf('DynDiGraph', fl, 4, 3, 4))
             if loops_k:
                 out.append(graphs.gconf('DynGraph', fl, 3, 4, loops_k + 1, loops=True))
                 out.append(graphs.gconf('DynDiGraph', fl, 3, 3, loops_k + 1, loops=True))
